@@ -302,6 +302,16 @@ def rule_parser(ctx):
             ok = encl is not None and encl.name == "autoindent"
             ctx.ob(R, rel, f"'lineprefix' node built in {encl.name if encl else '?'}", ok,
                    "" if ok else "lineprefix filter nodes are created outside autoindent", n.lineno)
+    # the prefix handed to lineprefix is the token text in front of the three marker characters (`{{*` / `{%*`)
+    ai = next((f_ for f_ in ast.walk(sub) if isinstance(f_, ast.FunctionDef) and f_.name == "autoindent"), None)
+    if ai is None:
+        raise AnalysisError("anchor missing: autoindent() in subparse")
+    tokp = ai.args.args[1].arg if len(ai.args.args) > 1 else "token"
+    consts = [c for c in ast.walk(ai) if isinstance(c, ast.Call) and ast.unparse(c.func) == "nodes.Const" and c.args]
+    args = {ast.unparse(pyfront.subst_locals(ai, c.args[0])) for c in consts}
+    ok = args == {f"{tokp}.value[:-3]"}
+    ctx.ob(R, rel, "subparse :: the line prefix is the marker token without its three marker characters", ok,
+           "" if ok else f"prefix expressions: {sorted(args)}: the prefix would keep part of the delimiter or lose indentation", ai.lineno)
     # unmarked branches
     src_terms = []
     for st, g in pyfront.walk_guarded(sub.body, (), descend_funcs=False):
